@@ -242,6 +242,19 @@ inline void sweep_C11(World& w, const WSnap& s, Sink& out, C11Stats& st) {
             }
         }
     }
+    // duplicate names (first match wins): rename the LAST group / parameter of a copy to the name of the FIRST one
+    if (o.groups.size() >= 2) {
+        ezc3d::ParametersNS::Parameters D = c.parameters(); D.group_nonConst(o.groups.size() - 1).name(o.groups[0].name);
+        std::vector<std::string> dn = gn; dn.back() = dn.front();
+        std::vector<GSnap> want = o.groups; want.back().name = want.front().name;
+        nameSweep("group/duplicate", dn, [&](const std::string& n) { return D.groupIdx(n); }, [&](const std::string& n) -> const Group& { return D.group(n); }, [&](const Group& g, size_t i) { return snapGroup(g) == want[i]; }, out, st);
+    }
+    for (size_t gi = 0; gi < o.groups.size() && gi < 2; ++gi) if (o.groups[gi].params.size() >= 2) {
+        Group G = PR.group(gi); const GSnap& gs = o.groups[gi]; G.parameter_nonConst(gs.params.size() - 1).name(gs.params[0].name);
+        std::vector<std::string> pn; for (auto& p : gs.params) pn.push_back(p.name); pn.back() = pn.front();
+        std::vector<PSnap> want = gs.params; want.back().name = want.front().name;
+        nameSweep("parameter/duplicate", pn, [&](const std::string& n) { return G.parameterIdx(n); }, [&](const std::string& n) -> const Param& { return G.parameter(n); }, [&](const Param& p, size_t i) { return snapParam(p) == want[i]; }, out, st);
+    }
     // header events
     const ezc3d::Header& H = c.header();
     posSweep("eventsTime", o.h.evTimes.size(), [&](size_t i) { return H.eventsTime(i); }, [&](float f, size_t i) { return fbits(f) == o.h.evTimes[i]; }, out, st);
